@@ -5,7 +5,11 @@ pub mod c06;
 pub mod c07;
 pub mod c09;
 pub mod c10;
+pub mod c16;
+pub mod c17;
+pub mod c17_cli;
 pub mod c19;
+pub mod c20;
 
 pub fn run(id: &str, e: &Engine) -> bool {
 	match id {
@@ -14,10 +18,13 @@ pub fn run(id: &str, e: &Engine) -> bool {
 		"C07" => c07::check(e),
 		"C09" => c09::check(e),
 		"C10" => c10::check(e),
+		"C16" => c16::check(e),
+		"C17" => c17::check(e),
 		"C19" => c19::check(e),
+		"C20" => c20::check(e),
 		_ => return false,
 	}
 	true
 }
 
-pub const ALL: &[&str] = &["C04", "C06", "C07", "C09", "C10", "C19"];
+pub const ALL: &[&str] = &["C04", "C06", "C07", "C09", "C10", "C16", "C17", "C19", "C20"];
